@@ -105,7 +105,8 @@ class Runner:
         if res.get("op") == "select" and res.get("rows") and self._marker.get(h):
             extra["seen"] = int(res["rows"][0][1][1])
         if "l" in evs and "L" not in evs:
-            self.emit(h, "rlock_err")
+            nrows = int(res.get("n") or 0) + len(res.get("rows") or [])
+            self.emit(h, "rlock_err", rows=nrows, haserr=bool(res.get("err")), reads=sum(1 for x in evs if x in ("P", "p")))
         else:
             self.emit(h, "done", **extra)
         return "done"
